@@ -240,15 +240,15 @@ class C01(ResolveSpec):
 
 class C02(ResolveSpec):
     pid = "C02"
-    level_text = "Theorems C02_failures_complete, C02_failures_exact_partial, C02_no_false_failure_partial, C02_has_errors: the failure list of the model's resolve is exactly the required-and-uncertified (node, criterion) pairs and success follows when all are certified and no conflict exists; via completeness of the search (the failed search visits exactly the reachable set). `_partial`: two statements assume the executable side condition no_fuel (the model's search fuel was sufficient), evaluated on every correspondence case. Report rendering (JSON/human minimal criteria names) is checked by the direct oracle on the implementation, not proved."
+    level_text = "Theorems C02_failures_exact, C02_failures_complete, C02_no_false_failure, C02_has_errors (all unconditional): the failure list of the model's resolve is exactly the required-and-uncertified (node, criterion) pairs and success follows when all are certified and no conflict exists; via completeness of the search (the failed search visits exactly the reachable set) and C02_fuel_is_an_artefact: the model's explicit search fuel provably always suffices (potential-function argument over the queue and the unvisited versions; a failed backward search excludes a successful forward one by transposing chains), so no fuel hypothesis remains. Report rendering (JSON/human minimal criteria names) is checked by the direct oracle on the implementation, not proved."
     level_note = "as C01; plus: rendering of failures in print_json/print_human is compared against the oracle's minimal-criteria rendering on every case (differential test)."
     design_ref = 'DESIGN.md §4 C02'
     coq_files = ["Properties/C02.v"]
-    theorems = ["C02_failures_exact_partial", "C02_failures_complete", "C02_no_false_failure_partial", "C02_has_errors"]
+    theorems = ["C02_failures_exact", "C02_failures_complete", "C02_no_false_failure", "C02_has_errors", "C02_fuel_is_an_artefact"]
     rule = C01.rule.replace("non-trivial = the verdict is Success or at least one (crate, criterion) pair is certified",
                             "non-trivial = the verdict is FailForVet with at least one failing criterion, or Success")
     projection_doc = "conclusion kind; failure list with criteria bitsets; has_errors; JSON report failures (names, versions, minimal criteria)"
-    assumptions = ["no_fuel: the model's fuelled search does not run out of fuel (evaluated on every case; the implementation has no fuel)"]
+    assumptions = C01.assumptions
 
     def project(self, rep, o, model=None):
         return {"kind": rep.kind, "failures": sorted(rep.failures().items()), "reqs": rep.reqs}
